@@ -32,7 +32,7 @@ def bits(x):
 def rows(cat):
     out = []
     for r in cat.catalog.tolist():
-        rid = r[0].decode("utf-8") if isinstance(r[0], bytes) else str(r[0])
+        rid = r[0].decode("utf-8", "backslashreplace") if isinstance(r[0], bytes) else str(r[0])
         out.append((rid, int(r[1])) + tuple(bits(v) for v in r[2:]))
     return out
 
@@ -42,7 +42,9 @@ def want_rows(events):
 
 
 def compare(ctx, name, got_cat, events, cid, check_id=True):
-    got = rows(got_cat)
+    got = ctx.normalize(name + ":rows", lambda: rows(got_cat))
+    if got is None:
+        return
     want = want_rows(events)
     if len(got) != len(want):
         ctx.violation(name + ":event_count", {"got": len(got), "want": len(want)})
@@ -130,6 +132,9 @@ def check_meta(ctx, name, cat, case, L, region):
     r2 = cat.region
     if r2 is None:
         ctx.violation(name + ":region_lost", None)
+        return
+    if not hasattr(r2, "get_masked") or not hasattr(r2, "to_dict"):
+        ctx.violation(name + ":region_not_a_region_object", {"type": type(r2).__name__})
         return
     if r2.to_dict() != region.to_dict():
         ctx.violation(name + ":region_dict_differs", None)
